@@ -38,6 +38,7 @@ def shards(tier, seed):
     out.append({'name': 'prim-sub-shift-ark', 'kind': 'prim', 'cost': 10})
     out.append({'name': 'prim-mixcol-2active', 'kind': 'mix2', 'cost': 40})
     out.append({'name': 'prim-errors', 'kind': 'errors', 'cost': 1})
+    out.append({'name': 'layouts', 'kind': 'layouts', 'cost': 8})
     if tier == 'thorough':
         for c in range(64):
             out.append({'name': 'mixcol-full-%02d' % c, 'kind': 'mixfull', 'chunk': c, 'chunks': 64, 'cost': 100})
@@ -86,6 +87,8 @@ def run_shard(shard, ctx):
         _mixfull(shard, col, aes, R, np)
     elif kind == 'errors':
         _errors(col, aes, np)
+    elif kind == 'layouts':
+        _layouts(seed, col, aes, R, np)
     if _tables_digest(aes) != tab0:
         col.violation('C05/module-tables-modified', 'module-level tables or round-operation lists changed during the sweep %s' % shard['name'], {'shard': shard['name']})
     return col.result()
@@ -279,3 +282,34 @@ def _errors(col, aes, np):
             col.violation('C05/out-of-domain-accepted', 'encrypt accepted a non-byte state %s' % bad.tolist(), {'state': bad.tolist()})
         except (ValueError, TypeError):
             pass
+
+
+def _layouts(seed, col, aes, R, np):
+    """Memory layout / dtype of the block and key arrays is not part of their value: Fortran-ordered, strided and reversed views (and wider integer
+    dtypes) must give the FIPS-197 state at every probed stop point, for paired blocks and keys."""
+    for nk in NKS:
+        blocks, keys = _pool(seed, nk)
+        blocks = blocks[:40]; keys = np.vstack([keys] * 3)[:40]
+        nr = nk // 4 + 6
+        rk = R.round_keys_v(keys)
+        enc = R.enc_trace_v(blocks, rk)
+        cts = enc[(nr, 3)]
+        dec = R.dec_trace_v(cts, rk)
+        wideb = np.zeros((80, 32), np.uint8); widek = np.zeros((80, 2 * nk), np.uint8)
+        for mode, data, trace in (('enc', blocks, enc), ('dec', cts, dec)):
+            views = {'fortran': (np.asfortranarray(data), np.asfortranarray(keys)), 'reversed': (data[::-1], keys[::-1]), 'int64-fortran': (np.asfortranarray(data.astype('int64')), np.asfortranarray(keys.astype('int64')))}
+            wb = wideb.copy(); wk = widek.copy(); wb[::2, ::2] = data; wk[::2, ::2] = keys
+            views['strided'] = (wb[::2, ::2], wk[::2, ::2])
+            for vn, (b, k) in views.items():
+                for (r, st) in ((None, None), (0, 3), (1, 0), (nr // 2, 2), (nr, 1)):
+                    col.evaluations += 1; col.states += 1; col.transitions += 1; col.nontrivial += 1
+                    case = {'view': vn, 'nk': nk, 'mode': mode, 'at_round': r, 'after_step': st}
+                    try:
+                        got = _call(aes, mode, b, k, r, st)
+                    except Exception as e:
+                        col.violation('C05/layout/raised', 'AES-%d %s on %s arrays at %s: %s: %s' % (nk * 8, mode, vn, (r, st), type(e).__name__, e), case); continue
+                    exp = trace[(nr, 3)] if r is None else trace[(r, st)]
+                    if vn == 'reversed': exp = exp[::-1]
+                    if np.asarray(got).shape != exp.shape or not np.array_equal(np.asarray(got), exp):
+                        col.violation('C05/layout', 'AES-%d %s of %s block/key arrays at stop point %s differs from the FIPS-197 state' % (nk * 8, mode, vn, (r, st)), case)
+    col.sample({'check': 'memory layouts', 'views': ['fortran', 'reversed', 'strided', 'int64-fortran']}, limit=1)
